@@ -129,7 +129,7 @@ class C03Monitor(simfarm.Monitor):
         want = sorted(
             f'{w.task.jobid}[{w.task.target if w.task.target else "__all__"}]'
             for w in sim.workers.values()
-            if w.task is not None
+            if w.task is not None and not getattr(w.rel, 'stale', False)  # (a reload clears the crew view)
         )
         got = sorted(b.split(' duration:')[0] for b in farm.crew()['busy'])
         if got != want:
